@@ -195,9 +195,9 @@ Section PreP.
     match goal with
     | L : lookup ?x (vars ?st) = Some _ |- lookup ?x (vars ?st) = Some _ =>
         rewrite L; unfold lens_tensor, ref_len, hyp_len; do 3 f_equal; apply map_ext_seq; intros n Hn;
-        first [ apply fixup_any
-              | apply fixup_none;
-                match goal with Hany : any_b _ = false |- _ => exact (any_false_at _ _ n Hn Hany) end
+        first [ apply (fixup_any rf hf)
+              | apply (fixup_none rf hf);
+                match goal with Hany : any_b _ = false |- _ => exact (any_false_at rf hf _ _ n Hn Hany) end
               | reflexivity ]
     end.
 
@@ -311,53 +311,4 @@ Section TailP.
     unfold tab0. destruct (i =? 0)%nat; [apply fmul_z2f_zf|reflexivity].
   Qed.
 
-  (* the table after the loop, as the loop lemma states it *)
-  Definition tabL : nat -> nat -> fx :=
-    iter_tab s ci cd cs R H rf hf rl hl excl (T - 1) 0 (fun i _ => (Z.of_nat i * cd)%Z) tab0.
-
-  (* entry (j, n) of the returned table *)
-  Definition fin_entry_p (j n : nat) : fx :=
-    let x := fmul (tabL j n) (Fq mult) in
-    let y := if nm then (if (Z.of_nat (rl n) =? 0)%Z then b2f (Z.of_nat j >? 0)%Z else fdiv x (z2f (Z.of_nat (rl n)))) else x in
-    if (Z.of_nat j >=? Z.of_nat (hl n) + (if excl then 0 else 1))%Z then z2f pad else y.
-
-  Definition out_tensor : tn fx :=
-    if bf then mkTn [N; T] (tab2 N T (fun n j => fin_entry_p j n)) else mkTn [T; N] (tab2 T N fin_entry_p).
-
-  Lemma rest_run_p : forall st lfL, pre_loop lfL tabL st -> returns (enc_x out_tensor) (exec E main_rest st).
-  Proof.
-    intros st lfL (Hexcl & Hmist & Hmask & Hprf & Hhl & Href & Hhyp & Hci & Hcs & Hdm & Hrl' & Hmu & Hno & Hwa & Hpad & Hbf &
-                   Hdev & Hrow & Hpe).
-    unfold lens_tensor in *. unfold main_rest, sm_main. cbv iota.
-    pifstep. pifstep. pasg. pifstep.
-    assert (Hfill : forall st0 pf,
-      lookup "prefix_ers" (vars st0) = Some (enc_x (mkTn [T; N] (tab2 T N pf))) ->
-      lookup "hyp_lens" (vars st0) = Some (enc_i (mkTn [N] (map (fun n => Z.of_nat (hl n)) (seq 0 N)))) ->
-      lookup "exclude_last" (vars st0) = Some (VBool excl) -> lookup "device" (vars st0) = Some device_token ->
-      lookup "padding" (vars st0) = Some (VInt pad) -> lookup "batch_first" (vars st0) = Some (VBool bf) ->
-      (forall j n, (j < T)%nat -> (n < N)%nat ->
-         (if (Z.of_nat j >=? Z.of_nat (hl n) + (if excl then 0 else 1))%Z then z2f pad else pf j n) = fin_entry_p j n) ->
-      returns (enc_x out_tensor)
-        (exec E (SSeq (SAssign [(TName "prefix_ers")] (EMeth (EName "prefix_ers") "masked_fill" [(EMeth (EMeth (ECall "torch.arange" [(EMeth (EName "prefix_ers") "size" [(EConst (VInt (0)%Z))] [])] [("device", (EName "device"))]) "unsqueeze" [(EConst (VInt (1)%Z))] []) "ge" [(EBin Add (EName "hyp_lens") (EIfExp (EName "exclude_last") (EConst (VInt (0)%Z)) (EConst (VInt (1)%Z))))] []); (EName "padding")] []))
-                 (SSeq (SIf (EName "batch_first") (SAssign [(TName "prefix_ers")] (EMeth (EName "prefix_ers") "t" [] [])) SPass)
-                       (SReturn (EName "prefix_ers")))) st0)).
-    { intros st0 pf Lp Lh Le Ld Lpad Lbf Hfin.
-      passign_v (enc_x (mkTn [T; N] (tab2 T N (fun j n =>
-                   if (Z.of_nat j >=? Z.of_nat (hl n) + (if excl then 0 else 1))%Z then z2f pad else pf j n))))
-        ltac:(destruct excl; repeat (progress (pevn; rewrite ?arange_nat)); reflexivity).
-      unfold out_tensor. destruct bf.
-      - pifstep. pasg. cbn [exec eval]. look. cbn [bind]. eexists. do 4 f_equal. apply tab2_ext. intros n j Hn Hj. now apply Hfin.
-      - pifstep. pseqnorm. cbn [exec eval]. look. cbn [bind]. eexists. do 4 f_equal. apply tab2_ext. intros j n Hj Hn. now apply Hfin. }
-    destruct nm; cbv iota.
-    - pasg. pasg. pifstep.
-      match goal with |- context [if ?b then _ else _] => destruct b eqn:Hany end.
-      + pifstep.
-        destruct w; (passign ltac:(repeat (progress (pevn; rewrite ?arange_nat, ?expand_as2_col)); reflexivity);
-                     pseqnorm; (eapply Hfill; try eassumption); intros j n Hj Hn; reflexivity).
-      + pseqnorm. eapply Hfill; try eassumption.
-        intros j n Hj Hn. unfold fin_entry_p.
-        replace (Z.of_nat (rl n) =? 0)%Z with false; [reflexivity|].
-        symmetry. exact (any_false_at (fun n0 => (Z.of_nat (rl n0) =? 0)%Z) N n Hn Hany).
-    - pseqnorm. eapply Hfill; try eassumption. intros j n Hj Hn. reflexivity.
-  Qed.
 End TailP.
